@@ -540,7 +540,9 @@ impl<'a> Socket<'a> {
         let hop_limit = self.hop_limit.unwrap_or(64);
 
         let res = self.tx_buffer.dequeue_with(|packet_meta, payload_buf| {
-            let src_addr = if let Some(s) = packet_meta.local_address {
+            // The application may hand back the metadata of a datagram it received through a
+            // broadcast or multicast destination: such an address is never used as a source.
+            let src_addr = if let Some(s) = packet_meta.local_address.filter(|s| s.is_unicast()) {
                 s
             } else {
                 match endpoint.addr {
